@@ -203,3 +203,21 @@ def finish(rep: Report, seed: int, replay_filter: str | None = None) -> int:
               f"{r}={per_rule.get(r, {}).get('instances', 0)}"
               for r in rules) + f"; {wall:.2f}s")
     return 1 if unlisted else 0
+
+
+def run_rules(mod, ctx, rep, pid: str) -> None:
+    """mod.run(ctx, rep); an AnalysisError (vanished anchor, floor) that
+    comes after unlisted violations were already established does not hide
+    them: the run is reported as violated, with the error as a note."""
+    from sa.model import AnalysisError
+    try:
+        mod.run(ctx, rep)
+    except AnalysisError as e:
+        known = {f["key"] for f in load_known().get("findings", [])}
+        if any(v.key(pid) not in known for v in rep.violations):
+            rep.notes.append(f"analysis incomplete after these violations: {e}")
+            if rep.tier not in ("selftest", ):
+                print(f"ANALYSIS-INCOMPLETE property={pid} (after the "
+                      f"violations below were found) {e}")
+            return
+        raise
